@@ -366,19 +366,21 @@ theorem absorb_shape (s : Ent) (below : List Ent) :
     by_cases hc : (p.overlapped || p.geom != s.geom) = true
     · rw [if_pos hc]; exact ⟨[], rfl, rfl⟩
     · rw [if_neg hc]
-      obtain ⟨pre, e1, e2⟩ := ih (addSelf s p)
+      obtain ⟨pre, e1, e2⟩ := ih (addSelf (closeOn s p) p)
       refine ⟨p :: pre, ?_, ?_⟩
       · simp only [List.cons_append]; rw [← e1]
       · simp only [List.map_cons, e2]; rfl
 
-theorem absorb_seg (s : Ent) (below : List Ent) : (absorb s below).1.seg = s.seg := by
+/-- the receiver keeps its clipping flag through the absorbing loop (since 51f64dd its `open` flag
+may be cleared when it lies on a closed segment) -/
+theorem absorb_clipping (s : Ent) (below : List Ent) : (absorb s below).1.seg.clipping = s.seg.clipping := by
   induction below generalizing s with
   | nil => rfl
   | cons p rest ih =>
     simp only [absorb]
     by_cases hc : (p.overlapped || p.geom != s.geom) = true
     · rw [if_pos hc]
-    · rw [if_neg hc]; rw [ih]; exact (addSelf_seg s p).1
+    · rw [if_neg hc]; rw [ih, (addSelf_seg (closeOn s p) p).1, (closeOn_seg s p).1]
 
 theorem goodS_zeroed (pre : List Ent) (L : List (Seg × Fields)) (hL : GoodS L)
     (hc : ∀ p ∈ pre, p.seg.clipping = false) : GoodS (pairs (pre.map zeroed) ++ L) := by
@@ -427,7 +429,7 @@ theorem goodS_merge (s : Ent) (below : List Ent) (hg : GoodS (pairs (s :: below)
       rw [hz]
       have := goodS_zeroed pre _ hrest hpre
       simpa [pairs] using this
-    have hseg : (absorb s below).1.seg = s.seg := absorb_seg s below
+    have hseg : (absorb s below).1.seg.clipping = s.seg.clipping := absorb_clipping s below
     rw [e1, e2]
     refine ⟨by simp only [pairs, List.map_cons]; rw [hseg]; exact hg.1, ?_, hbel⟩
     left
